@@ -55,7 +55,7 @@ def _run_scenario(args):
             notes={k: sorted(v) for k, v in ex.notes_all.items()}, functions=dict(I.SRC.used), solver_s=round(ex.solver_seconds, 3),
             wall_s=round(time.time() - t0, 3), crash=None, declared=sc.functions, conf=ex.conf_samples,
         )
-    except Exception:
+    except BaseException:
         return dict(scenario=sname, obligations=[], paths=0, truncated=0, undecided=[], notes={}, functions={}, solver_s=0, wall_s=round(time.time() - t0, 3), crash=traceback.format_exc(), declared=[])
 
 
@@ -68,7 +68,7 @@ def _replay_native(args):
         sc = [s for s in mod.SCENARIOS if s.name == sname][0]
         failed, checked, note = V.run_native(sc.fn, model)
         return dict(failed=failed, checked=checked, note=note, crash=None)
-    except Exception:
+    except BaseException:
         return dict(failed=[], checked=[], note="", crash=traceback.format_exc())
 
 
@@ -80,7 +80,7 @@ def _run_bounded(args):
             return None
         b = mod.bounded(tier, seed)
         return dict(evaluations=b.evaluations, distinct=len(b.distinct), failures=b.failures, samples=b.samples, rule=b.rule, bound=b.bound, exhaustive=b.exhaustive, crash=None)
-    except Exception:
+    except BaseException:
         return dict(evaluations=0, distinct=0, failures=[], samples=[], rule="", bound="", exhaustive=False, crash=traceback.format_exc())
 
 
